@@ -11,9 +11,9 @@ import (
 )
 
 type FnInfo struct {
-	num    map[ssa.Value]int
-	nregs  int
-	fvIdx  map[*ssa.FreeVar]int
+	num     map[ssa.Value]int
+	nregs   int
+	fvIdx   map[*ssa.FreeVar]int
 	hasLoop bool
 }
 
@@ -129,28 +129,28 @@ type State struct {
 	forced []bool
 	fpos   int
 
-	tryStack []*tryRec
-	reach    []string
-	trace    []string
-	locks    map[int]int // mutex object id -> holder goroutine id+1 (0 = free); RW readers negative count
-	wgs      map[int]int
+	tryStack  []*tryRec
+	reach     []string
+	trace     []string
+	locks     map[int]int // mutex object id -> holder goroutine id+1 (0 = free); RW readers negative count
+	wgs       map[int]int
 	syncDepth int
 
-	tickers []int
-	panicWhere string
-	sigs    []sigEntry
-	replay map[string]uint64 // replay mode: concrete values for nondets
-	viols  []Violation
+	tickers         []int
+	panicWhere      string
+	sigs            []sigEntry
+	replay          map[string]uint64 // replay mode: concrete values for nondets
+	viols           []Violation
 	unwindViolation bool
-	serial   int64 // instruction serial (not advanced on re-execution)
-	reexec   bool
-	ndIdx    int // nondets created by the current instruction
+	serial          int64 // instruction serial (not advanced on re-execution)
+	reexec          bool
+	ndIdx           int // nondets created by the current instruction
 
-	steps    int64
-	status   int
-	msg      string
-	retval   Value
-	uncaught *Iface
+	steps       int64
+	status      int
+	msg         string
+	retval      Value
+	uncaught    *Iface
 	symBranches int
 	asserts     int
 }
